@@ -250,4 +250,220 @@ def relations(rng, tier, rpt):
                 rep("%s: the child %s (private key with two leading zero bytes) is not the one BIP-32 prescribes" % (what, ptxt),
                     "%s seed=%s path=%s" % (c, seed.hex(), ptxt), str(got), str(want))
     rpt.extra["entry_point_equivalence_checks"] = n
-    return bad[:5]
+    more = []
+    for f in (_path_object_history, _concurrent_derivations):
+        sub = []
+        f(rng, tier, rpt, lambda what, inp, got, want, _s=sub: _s.append(
+            {"property": "C03", "entry_point": what, "request_lines": [], "relation": what, "input": inp, "impl_output": str(got), "model_output": str(want),
+             "no_failing_input": False}))
+        more += sub[:3]
+    return bad[:5] + more
+
+
+MASTER_KEYS = {"secp256k1": b"Bitcoin seed", "nist256p1": b"Nist256p1 seed", "ed25519": b"ed25519 seed", "ed25519blake2b": b"ed25519 seed"}
+
+
+def ref_priv_path(c, seed, elems):
+    """(private key, chain code) of the node seed -> elems from the BIP-32 / SLIP-0010 text with hmac only; `elems` all hardened (no curve
+    arithmetic is needed then).  None when an HMAC left half is out of range on the way (2^-128 / 2^-32: the retry rules are the matter of
+    the directed vectors, not of this reference)"""
+    import hmac, hashlib
+    d = hmac.new(MASTER_KEYS[c], seed, hashlib.sha512).digest()
+    n = ORDER.get(c)
+    if n is not None and not 0 < int.from_bytes(d[:32], "big") < n:
+        return None
+    k, cc = d[:32], d[32:]
+    for e in elems:
+        assert e >= 2**31
+        d = hmac.new(cc, b"\x00" + k + e.to_bytes(4, "big"), hashlib.sha512).digest()
+        if n is None:
+            k = d[:32]
+        else:
+            il = int.from_bytes(d[:32], "big")
+            v = (il + int.from_bytes(k, "big")) % n
+            if il >= n or v == 0:
+                return None
+            k = v.to_bytes(32, "big")
+        cc = d[32:]
+    return k, cc
+
+
+def _path_object_history(rng, tier, rpt, rep):
+    """"for every seed and every derivation path": a Bip32Path OBJECT is a value — the node derived for it does not depend on what was done
+    with the same object before.  The object (parsed from text, built from ints, built from index objects) is put through a random history:
+    a derivation that is refused part-way (hardened element on a public-only node; non-hardened element on an ed25519 scheme; an absolute
+    path on a child), an iteration the caller abandons after some elements, complete derivations on other curve classes, reads of its
+    accessors; after every step DerivePath(path) and FromSeedAndPath(seed, path) must hand out the node of the WHOLE path — key, chain code,
+    depth, index, parent fingerprint — which is the ChildKey chain over plain ints (and, for all-hardened paths, the hmac reference).
+    A path that must be refused (non-hardened element on ed25519 / ed25519-blake2b; hardened element from a public-only node) is refused
+    with the key error EVERY time it is presented, not only the first."""
+    from harness.props.bip32_common import node_out
+    from bip_utils import Bip32KeyError, Bip32Path, Bip32PathParser, Bip32KeyIndex
+    n = 0
+
+    def outcome(f):
+        try:
+            return node_out(f())
+        except Bip32KeyError:
+            return "refused: Bip32KeyError"
+        except ValueError as ex:
+            return "refused: " + type(ex).__name__
+
+    def make(elems, kind, absolute=True):
+        txt = ("m/" if absolute else "") + "/".join("%d%s" % (e & 0x7fffffff, "'" if e >> 31 else "") for e in elems)
+        if kind == 0:
+            return Bip32PathParser.Parse(txt), "Bip32PathParser.Parse(%r)" % txt
+        if kind == 1:
+            return Bip32Path(list(elems), absolute), "Bip32Path(%s)" % list(elems)
+        return Bip32Path([Bip32KeyIndex(e) for e in elems], absolute), "Bip32Path([Bip32KeyIndex …] %s)" % list(elems)
+
+    for i in range(16 if tier == "quick" else 400):
+        c = CURVES[i % 4]
+        ed = c not in ORDER
+        seed = rand_seed(rng)
+        ln = rng.randrange(2, 6)
+        all_hard = ed or i % 3 == 0
+        elems = [rand_index(rng, True if all_hard else None) for _ in range(ln)]
+        if not ed and not any(e >> 31 for e in elems):
+            elems[rng.randrange(ln)] |= 2**31            # at least one element a public-only node must refuse
+        path, how = make(elems, (i // 4) % 3)
+        x = CLS[c].FromSeed(seed)
+        for e in elems:
+            x = x.ChildKey(e)
+        want = node_out(x)
+        if all_hard:
+            r = ref_priv_path(c, seed, elems)
+            if r is not None and (x.PrivateKey().Raw().ToBytes(), x.ChainCode().ToBytes()) != r:
+                rep("ChildKey chain: the node of an all-hardened path is not the one SLIP-0010 prescribes (hmac reference)", "%s seed=%s path=%s" % (c, seed.hex(), elems),
+                    (x.PrivateKey().Raw().ToBytes().hex(), x.ChainCode().ToBytes().hex()), (r[0].hex(), r[1].hex()))
+        # an ed25519 path that must be refused shares nothing with `path`; its own repeated presentation is checked below
+        bad_elems = list(elems)
+        bad_elems[rng.randrange(ln)] &= 2**31 - 1
+        bad_path, bad_how = make(bad_elems, rng.randrange(3))
+        watch = CLS[c].FromSeed(seed)
+        watch.ConvertToPublic()
+        other = CLS[CURVES[(i + 1 + rng.randrange(3)) % 4]]
+        hist = []
+        ops = ["refused", "partial", "partial-next", "elsewhere", "read", "absolute-on-child"]
+        for step in range(5 if tier == "quick" else 8):
+            op = "refused" if step == 0 else rng.choice(ops)
+            hist.append(op)
+            if op == "refused" and not ed:           # hardened element on a public-only node: refused at that element
+                r = outcome(lambda: watch.DerivePath(path))
+                n += 1
+                if r != "refused: Bip32KeyError":
+                    rep("a path with a hardened element is not refused with the key error by a public-only node (attempt %d with the same path object)" % hist.count("refused"),
+                        "%s seed=%s %s" % (c, seed.hex(), how), r, "refused: Bip32KeyError")
+                    break
+            elif op == "refused":                      # ed25519: the path with one element not hardened, the same object again and again
+                for what, f in (("FromSeedAndPath", lambda: CLS[c].FromSeedAndPath(seed, bad_path)), ("FromSeed + DerivePath", lambda: CLS[c].FromSeed(seed).DerivePath(bad_path))):
+                    r = outcome(f)
+                    n += 1
+                    if r != "refused: Bip32KeyError":
+                        rep("%s: a path with a non-hardened element is not refused with the key error on %s (attempt %d with the same path object)" % (what, c, hist.count("refused")),
+                            "seed=%s %s" % (seed.hex(), bad_how), r, "refused: Bip32KeyError")
+                        break
+            elif op == "partial":
+                for k, _e in enumerate(path):
+                    if k == rng.randrange(ln):
+                        break
+            elif op == "partial-next":
+                it = iter(path)
+                for _ in range(rng.randrange(1, ln)):
+                    next(it)
+            elif op == "elsewhere":
+                outcome(lambda: other.FromSeed(seed).DerivePath(path))
+            elif op == "read":
+                path.ToList(), path.ToStr(), path.Length(), path.IsAbsolute(), path[rng.randrange(ln)].ToInt(), str(path)
+            elif op == "absolute-on-child":
+                outcome(lambda: CLS[c].FromSeed(seed).ChildKey(2**31).DerivePath(path))
+            stop = False
+            for what, f in (("FromSeed + DerivePath(path object)", lambda: CLS[c].FromSeed(seed).DerivePath(path)), ("FromSeedAndPath(seed, path object)", lambda: CLS[c].FromSeedAndPath(seed, path))):
+                n += 1
+                got = outcome(f)
+                if got != want:
+                    rep("%s: the node derived for a path object is not the node of that path once the same object has been used before (history: %s)" % (what, " / ".join(hist)),
+                        "%s seed=%s %s" % (c, seed.hex(), how), got, want)
+                    stop = True
+                    break
+            if stop:
+                break
+    rpt.extra["path_object_history_checks"] = n
+
+
+def _concurrent_derivations(rng, tier, rpt, rep):
+    """the prescribed keys are handed out also when several wallets are derived at the same time: one thread per curve class (plus a second
+    secp256k1 and ed25519 wallet), each with its OWN seed, keeps building the master key from the seed and deriving hardened children and a
+    two-level path from it, so that HMAC-SHA512 runs under different keys (curve strings, chain codes) in every thread.  Every node is
+    compared with the one the same call gave single-threaded beforehand, whose private key and chain code were checked against the hmac
+    reference.  Threads are released together by a barrier under a minimal switch interval; fresh objects every round."""
+    import sys, threading, time
+    from harness.props.bip32_common import node_out
+    wallets = []
+    for t, c in enumerate(CURVES + ["secp256k1", "ed25519"]):
+        for _ in range(20):
+            seed = rand_seed(rng)
+            idxs = [rand_index(rng, True) for _ in range(6)]
+            if ref_priv_path(c, seed, []) is not None and all(ref_priv_path(c, seed, [e, e ^ 1]) is not None for e in idxs):
+                break
+        else:
+            continue
+        single = {}
+        m = CLS[c].FromSeed(seed)
+        single["master"] = node_out(m)
+        ok = (m.PrivateKey().Raw().ToBytes(), m.ChainCode().ToBytes()) == ref_priv_path(c, seed, [])
+        for e in idxs:
+            ch = m.ChildKey(e)
+            g = ch.ChildKey(e ^ 1)
+            single[e] = (node_out(ch), node_out(g))
+            ok = ok and (ch.PrivateKey().Raw().ToBytes(), ch.ChainCode().ToBytes()) == ref_priv_path(c, seed, [e]) \
+                and (g.PrivateKey().Raw().ToBytes(), g.ChainCode().ToBytes()) == ref_priv_path(c, seed, [e, e ^ 1])
+        if not ok:
+            rep("single-threaded: master key / hardened children are not those SLIP-0010 prescribes (hmac reference)", "%s seed=%s indexes=%s" % (c, seed.hex(), idxs), "differs", "hmac reference")
+            return
+        wallets.append((c, seed, idxs, single))
+    nt = len(wallets)
+    bar = threading.Barrier(nt)
+    stop = threading.Event()
+    errors, calls = [], [0] * nt
+    budget = 1.2 if tier == "quick" else 12.0
+
+    def worker(t):
+        c, seed, idxs, single = wallets[t]
+        cls = CLS[c]
+        bar.wait()
+        end = time.monotonic() + budget
+        r = 0
+        try:
+            while not stop.is_set() and time.monotonic() < end:
+                e = idxs[r % len(idxs)]
+                r += 1
+                m = cls.FromSeed(seed)
+                got = node_out(m)
+                if got != single["master"]:
+                    errors.append((c, seed, "FromSeed", got, single["master"], r))
+                    break
+                got = (node_out(m.ChildKey(e)), node_out(m.DerivePath("%d'/%d'" % (e - 2**31, (e ^ 1) - 2**31))))
+                if got != single[e]:
+                    errors.append((c, seed, "ChildKey(%d) / DerivePath(%d'/%d')" % (e, e - 2**31, (e ^ 1) - 2**31), got, single[e], r))
+                    break
+                calls[t] += 3
+        except Exception as ex:  # noqa  a wrong HMAC output may also surface as a refused key
+            errors.append((c, seed, "derivation", "raised %s: %s" % (type(ex).__name__, str(ex)[:80]), "the prescribed node", r))
+        finally:
+            stop.set() if errors else None
+
+    old = sys.getswitchinterval()
+    sys.setswitchinterval(1e-6)
+    try:
+        ths = [threading.Thread(target=worker, args=(t,)) for t in range(nt)]
+        for th in ths:
+            th.start()
+        for th in ths:
+            th.join()
+    finally:
+        sys.setswitchinterval(old)
+    for c, seed, what, got, want, r in errors[:2]:
+        rep("%s in one of %d threads deriving different wallets at the same time: the node is not the prescribed one (it is when derived alone)" % (what, nt),
+            "%s seed=%s round=%d" % (c, seed.hex(), r), got, want)
+    rpt.extra["concurrent_derivation_calls"] = sum(calls)
